@@ -231,6 +231,37 @@ func itoa(n int) string {
 	return string(b[i:])
 }
 
+// ---- statement-level preemption points (inserted by tools/stmtpoints) ----
+
+var stmtArmed int32
+var stmtGID int64
+
+// ArmStmt: like Arm, counted in statements instead of function entries.
+func ArmStmt(n int, gid int64) {
+	if n < 0 {
+		n = 0
+	}
+	atomic.StoreInt64(&stmtGID, gid)
+	atomic.StoreInt32(&stmtArmed, int32(n))
+}
+
+func ArmedStmt() int { return int(atomic.LoadInt32(&stmtArmed)) }
+
+func PreemptStmt(name string) {
+	if atomic.LoadInt32(&stmtArmed) == 0 {
+		return
+	}
+	if GID() != atomic.LoadInt64(&stmtGID) {
+		return
+	}
+	if atomic.AddInt32(&stmtArmed, -1) != 0 {
+		return
+	}
+	if f, _ := PreemptHook.Load().(func(string)); f != nil {
+		f(name)
+	}
+}
+
 // GID returns the id of the calling goroutine (parsed from its stack header).
 func GID() int64 {
 	var buf [64]byte
